@@ -275,3 +275,16 @@ PROPS["C15"] = dict(
 )
 LEVEL_TEXT["C15"] = "Exhaustive enumeration of (structure type x contents x loading path) over a declared list, each loaded instance compared with the original on the full query alphabet of its type."
 TECHNIQUE["C15"] = "bounded-exhaustive enumeration of types x contents x loading paths with differential comparison against the original instance"
+
+PROPS["C12"] = dict(
+    level="exploration",
+    engine="E1",
+    parts=[dict(bin="e1_oob", timeout_s={"quick": 900, "thorough": 3600})],
+    rule="case = (structure instance, safe method, out-of-domain argument): argument alphabet {len, len+1, 2 len, len+63, len+64, 2^32, 2^63, MAX/2+1, MAX-1, MAX} for indices / positions / ranks / start positions / query values, absent keys and arbitrary signatures for functions and filters, iterators polled repeatedly after None, pop on empty, zero chunk sizes, block size 0; structures: 24 bit vectors (empty, singleton, word/block boundaries) with BitVec/AtomicBitVec and 13 rank/select stacks, BitFieldVec<u8|u16|usize|u128> x widths x lengths {0,1,k,k+1,3k+1}, AtomicBitFieldVec, plain slices, 9 Elias-Fano sequences (empty with u = 0 and u > 0, singleton, duplicates, last == u == MAX), 5 rear-coded lists x 3 block sizes, functions over 0/1/2/10/1000 keys for 7 shard/edge x backend combinations and two filters, GF(2) systems, signature store; every case is distinct and counted as non-trivial",
+    alphabet="see rule; methods documented as unchecked are excluded, safe methods that forward to unchecked code are the target",
+    bound={"quick": "as in rule", "thorough": "same"},
+    oracle="each call must return or panic by unwinding; a process abort by the standard library's UB checks (out-of-range get_unchecked), SIGSEGV or any other crash is a memory-safety violation (recorded by the supervisor with the source function that performed the access); where the documentation fixes the result for out-of-domain input (rank beyond len = num_ones, select beyond the count = None, index_of/succ/pred of absent or out-of-universe values) the result is checked too",
+    assumptions=STRICT + ["raw-pointer reads that bypass get_unchecked are visible only to the optional valgrind/ASan pass"],
+)
+LEVEL_TEXT["C12"] = "Exhaustive enumeration of (structure, safe method, out-of-domain argument) triples over a declared table, executed with the standard library's UB checks enabled in crash-isolated workers, so that any out-of-bounds unchecked access aborts and is reported with its call site."
+TECHNIQUE["C12"] = "bounded-exhaustive enumeration of out-of-domain calls under UB-check instrumentation with crash isolation"
